@@ -106,6 +106,7 @@ def make_case(index, rng, tier):
             "wconn": rng.choice([1, 2, 10]) if kind in ("gevent", "eventlet") else 10,
                 "sig_tick": rng.randrange(1, 120) if rng.randrange(3) == 0 else None, "keepalive": rng.choice([1, 2, 3, 5]),
                 "sig_on_send": rng.choice([1, 1, 2]) if rng.randrange(8) == 0 else None,
+                "sig_on_submit": kind == "gthread" and rng.randrange(6) == 0,
                 "binds": rng.choice([1, 1, 2]),
                 "threads": rng.randrange(1, 3), "buggify": {"pyticks": rng.randrange(3) == 0, "short_recv": rng.randrange(3) == 0}}
     if fam == "master":
@@ -295,7 +296,15 @@ def run_worker(case, choices):
             state["term"] = "sent"
             sim.fault("worker_signal:%s:%s" % (case["sig"], "tick" if current_task() is not None else "time"))
             sim.kill(p.pid, signum)
-    if case.get("sig_on_send"):
+    if case.get("sig_on_submit") and kind == "gthread":
+        # ... or at the call that hands a connection to the thread pool: the signal handler then runs while the main thread is inside
+        # ThreadPoolExecutor.submit(), holding the executor's non-reentrant lock
+        def on_submit(s_, actor, kind_, detail):
+            if kind_ == "submit" and actor == "worker" and state["term"] is None:
+                fire()
+        sim.observers.append(on_submit)
+        sim.after(case["sig_at"] + 6.0, fire)
+    elif case.get("sig_on_send"):
         # deliver at the very system call that puts the n-th piece of a response on the wire (its head is the first): the handler's
         # exception surfaces when send() returns, between "the bytes are out" and whatever the code notes down about that
         seen = {"n": 0}
